@@ -24,11 +24,29 @@ SepSlots(h, k)  == SepSlotsIn(h, Nodes(h), k)
 ValSlots(h, v)  == ValSlotsIn(h, Nodes(h), v)
 OwnedK(h, k) == LeafSlots(h, k) + SepSlots(h, k)
 
+\* references the structure itself holds to a node: its parent's child slot, its predecessor's `next`,
+\* and the `firstbucket` of every interior node whose leftmost leaf it is
+NodeRefs(h, id) ==
+  LET N == Nodes(h) IN
+    Cardinality({<<p, j>> \in {<<p, j>> \in N \X (1..Cardinality(DOMAIN h)) : h[p].t = "I" /\ j <= Len(h[p].kids)} : h[p].kids[j] = id})
+  + Cardinality({p \in N : h[p].t = "L" /\ h[p].nx = id})
+  + Cardinality({p \in N : h[p].t = "I" /\ Len(h[p].kids) > 0 /\ h[p].fb = id})
+\* interior nodes below the root, in preorder
+RECURSIVE PreInner(_, _)
+PreInner(h, id) == LET n == h[id] IN
+  IF n.t = "L" THEN <<>>
+  ELSE LET RECURSIVE cat(_)
+           cat(j) == IF j > Len(n.kids) THEN <<>> ELSE PreInner(h, n.kids[j]) \o cat(j + 1)
+       IN (IF id = Root THEN <<>> ELSE <<id>>) \o cat(1)
+LeafRefSeq(h) == LET d == Descend(h, Root) IN [j \in 1..Len(d) |-> NodeRefs(h, d[j])]
+InnerRefSeq(h) == LET d == PreInner(h, Root) IN [j \in 1..Len(d) |-> NodeRefs(h, d[j])]
+
 \* exactly one leaf slot per stored key, none for an absent one; a separator only ever names a key that
 \* is or once was in its subtree's range (at most one separator per level can name the same key)
 LedgerOK == \A k \in Keys : LeafSlots(heap, k) = (IF k \in Dom(m) THEN 1 ELSE 0)
 ValLedgerOK == \A v \in Vals : ValSlots(heap, v) = Cardinality({k \in Dom(m) : m[k] = v})
 
 DumpL == PrintT(<<"TR", ToJson([from |-> Proj(heap, Root), act |-> act', res |-> res'.impl, to |-> Proj(heap', Root),
-                                keys |-> [k \in Keys |-> OwnedK(heap', k)], vals |-> [v \in Vals |-> ValSlots(heap', v)]])>>)
+                                keys |-> [k \in Keys |-> OwnedK(heap', k)], vals |-> [v \in Vals |-> ValSlots(heap', v)],
+                                lrefs |-> LeafRefSeq(heap'), irefs |-> InnerRefSeq(heap')])>>)
 =============================================================================
